@@ -12,11 +12,13 @@ import (
 	"bytes"
 	"encoding/json"
 	"fmt"
+	internaljson "github.com/modelcontextprotocol/go-sdk/internal/json"
 	"io"
 	"reflect"
 	"regexp"
 	"sort"
 	"strconv"
+	"strings"
 	"testing"
 	"unicode/utf8"
 
@@ -210,8 +212,8 @@ func checkContentBytes(target int, data []byte) (viol string, class string) {
 	if err != nil {
 		return "", "accepted-not-marshalable"
 	}
-	// values with inputRequests are rewritten on purpose when marshalled (elicitation mode inference)
-	if bytes.Contains(b1, []byte(`"inputRequests"`)) {
+	// values with input requests are rewritten on purpose when marshalled (elicitation mode inference)
+	if bytes.Contains(b1, []byte(`"inputRequests"`)) || tg.name == "InputRequestMap" {
 		return "", "accepted-input-requests"
 	}
 	v2 := tg.zero()
@@ -244,6 +246,93 @@ var hostile = []string{
 type BytesScript struct {
 	Target int    `json:"target"` // -1: jsonrpc.DecodeMessage; else index into the content targets
 	Data   []byte `json:"data"`
+	CaseAt int    `json:"case_at,omitempty"` // which object member (in document order) gets another letter case
+}
+
+// checkCaseSensitive: a member whose name differs from a declared one only in letter case is not that
+// member. The document with one member re-spelt must decode like the document WITHOUT that member, never
+// like the original (unless the member makes no difference anyway).
+func checkCaseSensitive(target int, data []byte, at int) (viol string, class string) {
+	tg := contentTargets[((target%len(contentTargets))+len(contentTargets))%len(contentTargets)]
+	defer func() {
+		if r := recover(); r != nil {
+			viol = fmt.Sprintf("panic while decoding a re-spelt %s: %v", tg.name, r)
+		}
+	}()
+	var doc any
+	if json.Unmarshal(data, &doc) != nil {
+		return "", "case:not-json"
+	}
+	type member struct {
+		obj map[string]any
+		key string
+	}
+	var members []member
+	var walk func(x any)
+	walk = func(x any) {
+		switch t := x.(type) {
+		case map[string]any:
+			keys := make([]string, 0, len(t))
+			for k := range t {
+				keys = append(keys, k)
+			}
+			sort.Strings(keys)
+			for _, k := range keys {
+				if strings.ToUpper(k) != k || strings.ToLower(k) != k {
+					members = append(members, member{t, k})
+				}
+				walk(t[k])
+			}
+		case []any:
+			for _, e := range t {
+				walk(e)
+			}
+		}
+	}
+	walk(doc)
+	if len(members) == 0 {
+		return "", "case:no-member"
+	}
+	// the SDK's own entry point for decoding protocol values (internal/json), as the sessions use it
+	decode := func(b []byte) (any, bool) {
+		v := tg.zero()
+		if err := internaljson.Unmarshal(b, v); err != nil {
+			return nil, false
+		}
+		return v, true
+	}
+	orig, ok := decode(data)
+	if !ok {
+		return "", "case:rejected"
+	}
+	m := members[((at%len(members))+len(members))%len(members)]
+	variant := strings.ToUpper(m.key)
+	if variant == m.key {
+		variant = strings.ToLower(m.key)
+	}
+	if _, clash := m.obj[variant]; clash {
+		return "", "case:clash"
+	}
+	val := m.obj[m.key]
+	delete(m.obj, m.key)
+	removedJSON, _ := json.Marshal(doc)
+	m.obj[variant] = val
+	renamedJSON, _ := json.Marshal(doc)
+	removed, okRemoved := decode(removedJSON)
+	renamed, okRenamed := decode(renamedJSON)
+	same := func(a, b any) bool { return deepEq(reflect.ValueOf(a), reflect.ValueOf(b), tg.name) == "" }
+	if okRemoved && same(orig, removed) {
+		return "", "case:member-makes-no-difference"
+	}
+	// the member matters: its re-spelling must not be read as the member
+	if okRenamed && same(renamed, orig) {
+		return fmt.Sprintf("%s: decoding is not case-sensitive: member %q spelt %q is read like the real one\n re-spelt: %s\n original: %s", tg.name, m.key, variant, renamedJSON, data), "case:judged"
+	}
+	if okRemoved != okRenamed || (okRemoved && !same(renamed, removed)) {
+		// an unknown member may legitimately be kept somewhere (free-form maps, raw JSON): not judged
+		return "", "case:kept-as-unknown"
+	}
+	return "", "case:judged"
 }
 
 func mutate(rt *rapid.T, b []byte) []byte {
@@ -334,6 +423,7 @@ func genBytesScript(rt *rapid.T) BytesScript {
 	default:
 		s.Data = mutate(rt, valid)
 	}
+	s.CaseAt = rapid.IntRange(0, 40).Draw(rt, "case_at")
 	return s
 }
 
@@ -345,6 +435,11 @@ func runBytes(s BytesScript) (res vt.Result) {
 	} else {
 		viol, class = checkContentBytes(s.Target, s.Data)
 		res.Class("content:" + class)
+		if viol == "" && class != "rejected" {
+			var cclass string
+			viol, cclass = checkCaseSensitive(s.Target, s.Data, s.CaseAt)
+			res.Class(cclass)
+		}
 	}
 	if viol != "" {
 		res.Failf("%s", viol)
